@@ -85,7 +85,7 @@ var htmlByteTemplates = []string{
 }
 
 var sqlDomain = &domain{name: "sql", corpus: gen.CorpusSQL, seps: []string{"", " ", " ", " ", "\t", "\n", "\v", "\f", "\r", "\xa0", "\x00", "/**/", "/*x*/", "+", "("},
-	openers: gen.SQLOpeners, mutDict: gen.SQLExt, scale: sqlScale, sig: sqlSig, byteTemplates: sqlByteTemplates}
+	openers: gen.SQLOpeners, mutDict: gen.SQLExt, scale: sqlScale, sig: sqlSig, byteTemplates: sqlByteTemplates, fillers: []string{" ", "a", "/* filler */", "1,", "x "}}
 
 var htmlDomain = &domain{name: "html", corpus: gen.CorpusHTML, seps: []string{"", " ", " ", "\t", "\n", "\f", "\r", "/", "\x00", "\v"},
-	openers: gen.HTMLOpeners, mutDict: gen.HTMLFull, scale: htmlScale, sig: htmlSig, byteTemplates: htmlByteTemplates}
+	openers: gen.HTMLOpeners, mutDict: gen.HTMLFull, scale: htmlScale, sig: htmlSig, byteTemplates: htmlByteTemplates, fillers: []string{" ", "x", "<b>t</b>", "lorem ipsum ", "a=b "}}
